@@ -18,6 +18,23 @@ RULE = ('cases: (separator, escape character, column types, rows) pushed through
         'character of the next row falls exactly on a multiple of 65536 BYTES of the file, for every k strictly '
         'inside the character (1-of-2, 1/2-of-3, 1/2/3-of-4) and the two character edges, at 1-3 successive '
         '64 KiB boundaries; the byte position reached is measured on the real file (straddle) and reported. '
+        'RE-CHUNKED path ("chunk"): what csv.dump emitted is joined and cut again into chunks whose sizes cycle '
+        'through a list stored in the case (small random sizes incl. 0 for small random rows, compared with the '
+        'model; 64 KiB and other sizes in the scale family) before line.unframe -> csv.load. '
+        'SCALE family (field scale of the case; both through load_from_file and through the re-chunked path): '
+        'long-line = short rows, then 1-3 rows with one str field of 130-400 KiB (thorough: up to 1.2 MiB; content '
+        'varying with the position: random letters with <offset> stamps / mixed with separators, quotes, escape '
+        'characters / mostly quotes and escapes / non-ASCII), so that one line is longer than two, three and more '
+        'read chunks, starting in the middle of a chunk, right after the header, exactly at or 1-3 characters after '
+        'a chunk boundary, ending anywhere or with its newline as last / first character of a chunk, followed by '
+        'more rows; mib = texts of 2-9 MiB (quick: 1-2.6 MiB) made of 5-25 different blocks of short rows with '
+        'different repetition counts and single rows of 1-140 KiB in between; wide = rows of 100-800 (thorough: up to '
+        '3000) columns of mixed types, also with fields of some hundred characters so that one row is longer than a '
+        'read chunk. Where each long line really starts inside its chunk and how many chunks it touches is measured '
+        'on the text the implementation wrote (long_lines) and reported in the distribution. Scale cases beyond '
+        'the size the list-based Coq model evaluates (line > 2500 characters, distinct rows > 4000 characters, text '
+        '> 300000 characters) are judged by the round-trip oracle alone (Coq term CSkip); all other cases are '
+        'compared with the model as well. '
         'non-trivial = a round-trip case with a string containing separator/quote/escape character or a float '
         'column; distinct = distinct case JSON')
 TRUSTED = [
@@ -29,6 +46,9 @@ TRUSTED = [
     'str() of an int/float/bool is non-empty, contains no separator and no newline and does not start with a '
     'double quote',
     'multi-character separators: correspondence only (the theorems are for a one-character separator)',
+    'scale family (lines of several read chunks, texts of several MiB, hundreds of columns): judged by the model-free '
+    'round-trip oracle only; the Coq model is not evaluated on them (term CSkip, checker answers true) because it is '
+    'quadratic in the length of a line; the theorems cover them (any string, any chunking, any file size)',
     'theorems are about the code WITH the two csv.py repairs of DESIGN-repairs.md (parse_decimal = float(ii); '
     'closing quote by parity of the preceding escape run); on the unrepaired code the oracle reports '
     'csv:parse_decimal and csv:merge-escape-parity',
@@ -289,6 +309,203 @@ def gen_aligned_file(rng, ch, k, nb):
     return c
 
 
+def gen_chunked(rng):
+    """small random rows; the dumped text is cut again into chunks of small random sizes (cycled; a 0 now and then)
+    before line.unframe: lines that span several chunks and start anywhere in a chunk, compared with the model"""
+    c = gen_random(rng, 'chunk', nrows=rng.choice([1, 1, 2, 3, 5, 8]))
+    top = rng.choice([1, 2, 3, 5, 8, 13, 40])
+    sizes = [rng.randint(0 if rng.random() < 0.2 else 1, top) for _ in range(rng.randint(1, 8))]
+    if not any(sizes):
+        sizes.append(1)
+    c['chunking'] = sizes
+    return c
+
+
+# --------------------------------------------------------------------------------------------------
+# scale family: lines of several read chunks, files of several MiB, rows of hundreds of columns
+# --------------------------------------------------------------------------------------------------
+MODEL_MAX_LINE = 2500          # the list-based model is quadratic in the length of a line (Line.go, rev),
+MODEL_MAX_CHARS = 300000       # linear, with a large constant, in the length of the text,
+MODEL_MAX_TERM = 4000          # and coqc needs ~50 us per character of the term (3 x ~8 per character of a distinct row)
+LETTERS = 'abcdefghijklmnopqrstuvwxyz0123456789 ABCDEFGHIJKLMNOPQRSTUVWXYZ_-.:/'
+FLAVOURS = ['plain', 'stamp', 'mixed', 'mixed', 'dense', 'dense', 'nonascii']
+
+
+def scale_text(rng, n, flavour, sep, esc):
+    """n characters (no newline) whose content varies with the position: random pieces, plus <offset> stamps"""
+    plain = list(LETTERS)
+    if flavour in ('plain', 'stamp'):
+        pieces = plain
+    elif flavour == 'mixed':
+        pieces = plain + [sep, sep, QUOTE, QUOTE, esc, esc, esc + QUOTE, sep + QUOTE, QUOTE + sep, ' ', ' ']
+    elif flavour == 'dense':
+        pieces = [QUOTE, QUOTE, esc, esc, esc + QUOTE, esc + esc, QUOTE + QUOTE, sep, QUOTE + sep, sep + QUOTE,
+                  esc + sep, 'a', 'b', ' ']
+    else:
+        pieces = plain + ['\xe9', '\u20ac', '\U0001f600', '\u65e5', sep, QUOTE, esc]
+    body = ''.join(rng.choices(pieces, k=n))[:n]
+    if flavour == 'dense' or (flavour != 'stamp' and rng.random() < 0.5):
+        return body
+    parts, pos = [], 0
+    while pos < n:
+        st, ln = '<%d>' % pos, rng.randint(40, 3000)
+        parts.append((st + body[pos + len(st):pos + ln])[:ln])
+        pos += ln
+    return ''.join(parts)[:n]
+
+
+def scale_types(rng, lo, hi):
+    ncol = rng.randint(lo, hi)
+    types = [rng.choice(['int', 'float', 'bool', 'str', 'str']) for _ in range(ncol)]
+    if 'str' not in types:
+        types[rng.randrange(ncol)] = 'str'
+    return types
+
+
+def finish_scale(c, segs, info, sep, esc):
+    """case from the segments; the reference rendering is used to SIZE things only (is the case small enough for
+    the model; which lines are long)"""
+    segs = [sg for sg in segs if sg[0] and sg[1] > 0]
+    c['rows'], c['repeat'], c['more'] = segs[0][0], segs[0][1], segs[1:]
+    lens = [(len(ref_line(r, sep, esc)), k) for b, k in segs for r in b]
+    total = sum(n * k for n, k in lens)
+    info['model'] = (max(n for n, k in lens) <= MODEL_MAX_LINE and total <= MODEL_MAX_CHARS
+                     and sum(n for n, k in lens) <= MODEL_MAX_TERM)
+    c['scale'] = info
+    return c
+
+
+def gen_scale_long(rng, kind, lo=130 * 1024, hi=400 * 1024):
+    """short rows, then 1-3 rows with one str field of lo..hi characters (so that the line is longer than two,
+    three, ... read chunks) starting in the middle of a chunk / right after the header / exactly at or just after
+    a chunk boundary and ending anywhere / exactly at a boundary, then more rows"""
+    sep, esc = rnd_conf(rng, 0.15)
+    types = scale_types(rng, 1, 6)
+    strs = [i for i, ty in enumerate(types) if ty == 'str']
+    t = rng.choice(strs)
+    c = mk(kind, sep, esc, types, [])
+    if kind == 'chunk':
+        c['chunking'] = rng.choice([[BLOCK], [BLOCK], [BLOCK], [32768], [100000], [BLOCK, 1], [8192],
+                                    [rng.randint(20000, 90000) for _ in range(rng.randint(2, 6))]])
+    B = c['chunking'][0] if kind == 'chunk' and len(c['chunking']) == 1 else BLOCK
+    short = lambda: [rnd_value(rng, ty, sep, esc) for ty in types]
+    size = lambda rows: sum(len(ref_line(r, sep, esc)) for r in rows)
+    pos = len(sep.join('c%d' % i for i in range(len(types)))) + 1
+
+    def pad_to(rows, pos, target):
+        """short rows + one pad row so that the next row starts at character offset == target (mod B)"""
+        pad = short()
+        pad[t] = ['s', '']
+        while (target - pos - size([pad])) % B > 3000 and len(rows) < 20000:
+            r = short()
+            rows.append(r)
+            pos += size([r])
+        pad[t] = ['s', 'a' * ((target - pos - size([pad])) % B)]
+        rows.append(pad)
+        return pos + size([pad])
+
+    start = rng.choice(['mid', 'mid', 'mid', 'mid', 'first', 'boundary', 'after-boundary'])
+    prefix = []
+    if start == 'mid':
+        target = rng.randrange(pos, B * rng.choice([1, 1, 1, 2, 3]))
+        while pos < target:
+            r = short()
+            prefix.append(r)
+            pos += size([r])
+    elif start != 'first':
+        pos = pad_to(prefix, pos, 0 if start == 'boundary' else rng.randint(1, 3))
+    segs = [[prefix, 1]]
+    nlong = rng.choice([1, 1, 1, 2, 3])
+    ends, flavours, longest = [], [], 0
+    for j in range(nlong):
+        row = short()
+        fl = rng.choice(FLAVOURS)
+        text = scale_text(rng, rng.randint(lo, hi), fl, sep, esc)
+        if len(strs) > 1 and rng.random() < 0.2:            # a second long field in the same row
+            row[rng.choice([i for i in strs if i != t])] = ['s', scale_text(rng, rng.randint(30000, 100000),
+                                                                          rng.choice(FLAVOURS), sep, esc)]
+        row[t] = ['s', text]
+        end = rng.choice(['free', 'free', 'free', 'newline-last-of-chunk', 'newline-first-of-chunk'])
+        if end != 'free':                                   # plain characters add exactly their number to the line
+            want = 0 if end == 'newline-last-of-chunk' else 1
+            row[t] = ['s', text + scale_text(rng, (want - pos - size([row])) % B, 'stamp', sep, esc)]
+        pos += size([row])
+        longest = max(longest, size([row]))
+        ends.append(end)
+        flavours.append(fl)
+        between = [short() for _ in range(rng.choice([0, 0, 1, 5]))] if j + 1 < nlong else []
+        pos += size(between)
+        segs += [[[row], 1], [between, 1]]
+    tail = [short() for _ in range(rng.randint(1, 30))]
+    segs.append([tail, rng.choice([1, 1, 3, 50])])
+    return finish_scale(c, segs, {'family': 'long-line', 'start': start, 'ends': ends, 'flavours': flavours,
+                                  'longest_line': longest}, sep, esc)
+
+
+def gen_scale_mib(rng, kind, lo, hi):
+    """a text of lo..hi characters: 5-25 different blocks of short rows, each repeated a different number of times,
+    with single medium rows (1-20 KiB) and now and then a line longer than a read chunk in between"""
+    sep, esc = rnd_conf(rng, 0.15)
+    types = scale_types(rng, 1, 8)
+    t = types.index('str')
+    c = mk(kind, sep, esc, types, [])
+    if kind == 'chunk':
+        c['chunking'] = rng.choice([[BLOCK], [BLOCK], [16384], [250000], [rng.randint(1000, 90000) for _ in range(5)]])
+    short = lambda: [rnd_value(rng, ty, sep, esc) for ty in types]
+    target, nblocks = rng.randint(lo, hi), rng.randint(5, 25)
+    segs, longest = [], 0
+    for j in range(nblocks):
+        blk = [short() for _ in range(rng.randint(3, 60))]
+        n = sum(len(ref_line(r, sep, esc)) for r in blk)
+        segs.append([blk, max(1, int(target / nblocks * rng.uniform(0.3, 1.7)) // n)])
+        if rng.random() < 0.6:
+            row = short()
+            ln = rng.choice([1000, 5000, 20000, 20000, 70000, 140000]) + rng.randint(0, 999)
+            row[t] = ['s', scale_text(rng, ln, rng.choice(FLAVOURS), sep, esc)]
+            longest = max(longest, len(ref_line(row, sep, esc)))
+            segs.append([[row], 1])
+    return finish_scale(c, segs, {'family': 'mib', 'longest_line': longest}, sep, esc)
+
+
+def gen_scale_wide(rng, kind, lo=100, hi=800, small=False):
+    """rows of lo..hi columns of mixed types (strings with separators, quotes, escape characters); a few to a few
+    hundred rows, so that the widest lines also cross the read chunks; small: 1-2 rows of short values, so that the
+    case is (usually) within the size the Coq model evaluates"""
+    sep, esc = rnd_conf(rng, 0.15)
+    types = scale_types(rng, lo, hi)
+    c = mk(kind, sep, esc, types, [])
+    if kind == 'chunk':
+        c['chunking'] = rng.choice([[BLOCK], [4096], [1000, 1, 50], [rng.randint(1, 3000) for _ in range(6)]])
+    fat = rng.random() < 0.5 and not small     # strings of some hundred characters: one line = several read chunks
+
+    def value(ty):
+        if ty == 'str' and fat and rng.random() < 0.5:
+            return ['s', scale_text(rng, rng.randint(50, 600), rng.choice(FLAVOURS), sep, esc)]
+        return rnd_value(rng, ty, sep, esc)
+    blk = [[value(ty) for ty in types] for _ in range(rng.choice([1, 2] if small else [1, 2, 3, 5, 8]))]
+    tail = [[value(ty) for ty in types] for _ in range(0 if small else rng.choice([0, 1, 2]))]
+    longest = max(len(ref_line(r, sep, esc)) for r in blk + tail)
+    return finish_scale(c, [[blk, rng.choice([1, 1, 2, 10, 40])], [tail, 1]],
+                        {'family': 'wide', 'longest_line': longest}, sep, esc)
+
+
+def gen_scale(rng, tier):
+    kinds = ['file', 'chunk']
+    if tier == 'quick':
+        out = [gen_scale_long(rng, k) for k in kinds * 3]
+        out += [gen_scale_long(rng, rng.choice(kinds), 66000, 130 * 1024)]
+        out += [gen_scale_mib(rng, 'file', 2000000, 2600000), gen_scale_mib(rng, 'chunk', 1000000, 1300000)]
+        out += [gen_scale_wide(rng, k) for k in kinds] + [gen_scale_wide(rng, rng.choice(kinds), 100, 250, small=True)]
+        return out
+    out = [gen_scale_long(rng, k) for k in kinds * 30]
+    out += [gen_scale_long(rng, k, 66000, 130 * 1024) for k in kinds * 5]
+    out += [gen_scale_long(rng, k, 400 * 1024, 1200 * 1024) for k in kinds * 2]
+    out += [gen_scale_mib(rng, k, 2 << 20, 9 << 20) for k in ['file'] * 5 + ['chunk'] * 3]
+    out += [gen_scale_wide(rng, k) for k in kinds * 12] + [gen_scale_wide(rng, k, 800, 3000) for k in kinds]
+    out += [gen_scale_wide(rng, k, 100, 300, small=True) for k in kinds * 4]
+    return out
+
+
 def gen_parse(rng):
     sep, esc = rnd_conf(rng, 0.1)
     ncol = rng.randint(1, 3)
@@ -340,7 +557,7 @@ def generate(rng, tier):
         cases += exhaustive(';', '~', rng.sample(strings_upto(['a', ';', QUOTE, '~'], 5), 300))
         cases += exhaustive_parse(',', '\\', 5)
         n_rand, n_parse, files = 1200, 800, [0, 66000, 70000, 131100]
-        exact = [65536]
+        exact, n_chunked = [65536], 200
     else:
         cases += exhaustive(',', '\\', all6)
         for sep, esc in [(';', '^'), ('\t', '\\'), ('|', '~')]:
@@ -349,12 +566,14 @@ def generate(rng, tier):
             cases += exhaustive(sep, esc, strings_upto(['a', sep, QUOTE, esc, sep[0]], 4))
         cases += exhaustive_parse(',', '\\', 5)
         cases += exhaustive_parse('||', '^', 4)
-        n_rand, n_parse = 20000, 8000
+        n_rand, n_parse, n_chunked = 20000, 8000, 4000
         exact = [65535, 65536, 65537, 65537, 131072, 131073, 196608]
         files = [0, 0, 500, 65000, 65530, 65536, 65540, 66000, 66000, 70000, 70000, 80000, 100000, 131000,
                  131072, 131100, 140000, 200000, 66000, 67000, 68000, 69000, 90000, 262200]
     # (b) random typed rows, (d) malformed lines; shuffled so that the Coq shards have similar sizes
+    # (b') the dumped text of small random rows cut again into small random chunks (in-memory re-chunked path)
     cases += [gen_random(rng) for _ in range(n_rand)] + [gen_parse(rng) for _ in range(n_parse)]
+    cases += [gen_chunked(rng) for _ in range(n_chunked)]
     rng.shuffle(cases)
     # (c) real files, spread over the shards
     fcases = [gen_file(rng, t) for t in files] + [gen_exact_file(rng, t) for t in exact]
@@ -364,6 +583,8 @@ def generate(rng, tier):
         fcases += [gen_aligned_file(rng, ch, k, rng.choice([1, 1, 2])) for ch, k in al]
     else:
         fcases += [gen_aligned_file(rng, ch, k, nb) for ch, k in alignments() for nb in (1, 2, 3)]
+    # (e) scale: lines of several read chunks, texts of several MiB, hundreds of columns; file and re-chunked path
+    fcases += gen_scale(rng, tier)
     step = max(1, len(cases) // (len(fcases) + 1))
     for i, fc in enumerate(fcases):
         cases.insert(min(len(cases), (i + 1) * step + i), fc)
@@ -423,6 +644,21 @@ def run_impl(case):
         return {'rows': [[enc(v) for v in r] for r in rows], 'end': end}
     X = namedtuple('X', cols)
     items = [X(*[dec(v) for v in r]) for r in all_rows(case)]
+    with_model = model_ok(case)
+    if case['kind'] == 'chunk':
+        lines, dend = collect(rx.from_(items).pipe(csv.dump(separator=sep, escapechar=esc)))
+        text = ''.join(lines)
+        chunks, pos, i, sizes = [], 0, 0, case['chunking']
+        while pos < len(text):
+            chunks.append(text[pos:pos + sizes[i % len(sizes)]])
+            pos += sizes[i % len(sizes)]
+            i += 1
+        rows, end = collect(rx.from_(chunks).pipe(line.unframe(), csv.load(parser)))
+        rows = [[enc(v) for v in r] for r in rows]
+        rseg = segs_multi(rows, [(len(b), k) for b, k in segments(case)], 0, list)
+        return {'chunks': chunks if with_model else None, 'dump_end': dend, 'chars': len(text), 'nchunks': len(chunks),
+                'long_lines': long_lines(text, [len(ch) for ch in chunks]),
+                'rows': rseg or ([[rows, 1]] if rows else []), 'end': end}
     if case['kind'] == 'mem':
         lines, dend = collect(rx.from_(items).pipe(csv.dump(separator=sep, escapechar=esc)))
         rows, end = collect(rx.from_(lines).pipe(line.unframe(), csv.load(parser)))
@@ -447,17 +683,48 @@ def run_impl(case):
         straddle.append(n)
     rows = [[enc(v) for v in r] for r in rows]
     head = content.index('\n') + 1 if '\n' in content else 0
-    if case.get('more'):
+    if case.get('more') or case.get('scale'):
         shape = [(len(b), k) for b, k in segments(case)]
         lines = [l + '\n' for l in content.split('\n')[:-1]] if content.endswith('\n') else None
         cseg = segs_multi(lines, shape, 1, ''.join) if lines else None
         rseg = segs_multi(rows, shape, 0, list)
-        return {'content': cseg or [[content, 1]], 'dump_end': dend, 'lens': [len(c) for c in chunks],
-                'rows': rseg or ([[rows, 1]] if rows else []), 'end': end, 'bytes': size, 'chars': len(content),
-                'straddle': straddle}
+        o = {'content': cseg or [[content, 1]], 'dump_end': dend, 'lens': [len(c) for c in chunks],
+             'rows': rseg or ([[rows, 1]] if rows else []), 'end': end, 'bytes': size, 'chars': len(content),
+             'straddle': straddle}
+        if case.get('scale'):
+            o['long_lines'] = long_lines(content, o['lens'])
+            if not with_model:
+                o['content'] = None      # not compared with the model (CSkip): the oracle needs the rows only
+        return o
     return {'content': segs(content, case['repeat'], head), 'dump_end': dend, 'lens': [len(c) for c in chunks],
             'rows': segs(rows, case['repeat']), 'end': end, 'bytes': size, 'chars': len(content),
             'straddle': straddle}
+
+
+def long_lines(text, lens):
+    """[offset of the line start inside its chunk, length of the line incl. newline, chunks it touches] of the (at
+    most 8 longest) lines of `text` that touch three or more of the chunks of lengths `lens`"""
+    import bisect
+    bounds, p = [], 0
+    for n in lens:
+        p += n
+        bounds.append(p)             # bounds[i] = offset of the first character after chunk i
+    out, start = [], 0
+    while start < len(text):
+        nl = text.find('\n', start)
+        stop = nl + 1 if nl >= 0 else len(text)
+        if stop - start > 2:
+            a, b = bisect.bisect_right(bounds, start), bisect.bisect_right(bounds, stop - 1)
+            if b - a >= 2:
+                out.append([start - (bounds[a - 1] if a else 0), stop - start, b - a + 1])
+        start = stop
+    return sorted(out, key=lambda e: -e[1])[:8]
+
+
+def model_ok(case):
+    """scale cases beyond the size the list-based Coq model evaluates in reasonable time are judged by the
+    round-trip oracle alone (term CSkip); decided at generation time from the reference rendering"""
+    return not case.get('scale') or bool(case['scale'].get('model'))
 
 
 def expand(sg):
@@ -476,7 +743,7 @@ def oracle(case, obs):
     if 'raised' in obs:
         return {'sig': 'csv:raised', 'what': 'dump/load raised %s: %s' % (obs['raised'], obs.get('msg'))}
     want = all_rows(case)
-    got = expand(obs['rows']) if case['kind'] == 'file' else obs['rows']
+    got = expand(obs['rows']) if case['kind'] in ('file', 'chunk') else obs['rows']
     esc = case['esc']
     bad_row, only_float = None, True
     for i, w in enumerate(want):
@@ -504,9 +771,27 @@ def oracle(case, obs):
         sig = 'csv:merge-escape-parity'
     else:
         sig = 'csv:roundtrip'
+    show = list(range(max(len(w), len(g or []))))
+    if len(show) > 12:          # wide rows: the first columns that differ
+        show = [j for j in show if j >= len(w) or g is None or j >= len(g) or w[j] != g[j]][:6]
+    cut = lambda t: t if len(t) <= 60 else t[:60] + '...[%d characters]' % len(t)
+    short = lambda r: [dec(r[j]) if r[j][0] not in '?s' else cut(r[j][1]) for j in show if j < len(r)]
     what = 'row %d written %r (sep %r esc %r) read back %r end=%s' % (
-        bad_row, [dec(v) if v[0] != 's' else v[1][:60] for v in w], case['sep'], esc,
-        None if g is None else [dec(v) if v[0] not in '?s' else v[1][:60] for v in g], obs['end'])
+        bad_row, short(w), case['sep'], esc, None if g is None else short(g), obs['end'])
+    if len(w) > 12:
+        what += '; %d columns, shown: %s' % (len(w), show)
+    if g is not None and len(g) == len(w):
+        for j, (a, b) in enumerate(zip(w, g)):
+            if a != b and a[0] == 's' and b[0] == 's' and max(len(a[1]), len(b[1])) > 60:
+                k = next((k for k in range(min(len(a[1]), len(b[1]))) if a[1][k] != b[1][k]), min(len(a[1]), len(b[1])))
+                what += '; column %d: strings of %d (written) and %d (read back) characters differ from offset %d: ' \
+                        '%r / %r' % (j, len(a[1]), len(b[1]), k, a[1][k:k + 40], b[1][k:k + 40])
+                break
+    if case['kind'] == 'chunk':
+        what += '; text of %s characters cut into %s chunks of sizes %s (cycled), %d rows written, %d read back' % (
+            obs.get('chars'), obs.get('nchunks'), case['chunking'][:8], len(want), len(got))
+    if obs.get('long_lines'):
+        what += '; lines over 3+ chunks [offset of the line start in its chunk, length, chunks]: %s' % obs['long_lines'][:3]
     if case['kind'] == 'file':
         what += '; file of %s bytes, %d rows written, %d read back, unfinished UTF-8 bytes before the 64 KiB byte ' \
                 'boundaries: %s' % (obs.get('bytes'), len(want), len(got), obs.get('straddle'))
@@ -529,7 +814,12 @@ def describe(cases, obs):
          'str_with_esc': 0, 'str_ending_with_esc': 0, 'str_empty': 0, 'str_blank_edge': 0, 'rows_needing_merge': 0,
          'float_negative': 0, 'float_negzero': 0, 'int_negative': 0, 'file_chars': [], 'files_over_64k': 0,
          'max_chunks_per_file': 0, 'file_bytes_max': 0, 'files_with_non_ascii': 0, 'byte_boundaries_64k': 0,
-         'byte_boundaries_inside_multibyte_char': {}, 'files_with_boundary_inside_char': 0}
+         'byte_boundaries_inside_multibyte_char': {}, 'files_with_boundary_inside_char': 0,
+         'chunk': 0, 'chunk_sizes_max': 0,
+         'scale': {'cases': {}, 'without_model_comparison': 0, 'longest_line_chars': 0, 'max_chunks_under_one_line': 0,
+                   'lines_over_3plus_chunks': 0, 'of_which_start_inside_a_chunk': 0, 'of_which_start_at_a_chunk_start': 0,
+                   'long_line_start': {}, 'long_line_end': {}, 'long_field_flavours': {}, 'max_columns': 0,
+                   'max_text_chars': 0, 'texts_over_1MiB': 0, 'max_rows': 0}}
     for c, o in zip(cases, obs):
         d[c['kind']] += 1
         d['separators'][repr(c['sep'])] = d['separators'].get(repr(c['sep']), 0) + 1
@@ -538,6 +828,29 @@ def describe(cases, obs):
         if c['kind'] == 'parse':
             continue
         d['rows'] += sum(len(b) * k for b, k in segments(c))
+        if c['kind'] == 'chunk':
+            d['chunk_sizes_max'] = max(d['chunk_sizes_max'], max(c['chunking']))
+        if c.get('scale'):
+            sc, inf = d['scale'], c['scale']
+            key = '%s/%s' % (inf['family'], c['kind'])
+            sc['cases'][key] = sc['cases'].get(key, 0) + 1
+            sc['without_model_comparison'] += not inf.get('model')
+            sc['max_columns'] = max(sc['max_columns'], len(c['types']))
+            sc['max_rows'] = max(sc['max_rows'], sum(len(b) * k for b, k in segments(c)))
+            for name, vals in (('long_line_start', [inf.get('start')]), ('long_line_end', inf.get('ends', [])),
+                               ('long_field_flavours', inf.get('flavours', []))):
+                for x in vals:
+                    if x:
+                        sc[name][x] = sc[name].get(x, 0) + 1
+            if isinstance(o, dict) and 'chars' in o:
+                sc['max_text_chars'] = max(sc['max_text_chars'], o['chars'])
+                sc['texts_over_1MiB'] += o['chars'] > 1 << 20
+                for off, ln, n in o.get('long_lines', []):
+                    sc['longest_line_chars'] = max(sc['longest_line_chars'], ln)
+                    sc['max_chunks_under_one_line'] = max(sc['max_chunks_under_one_line'], n)
+                    sc['lines_over_3plus_chunks'] += 1
+                    sc['of_which_start_inside_a_chunk'] += off > 0
+                    sc['of_which_start_at_a_chunk_start'] += off == 0
         if c['kind'] == 'file' and isinstance(o, dict) and 'chars' in o:
             d['file_chars'].append(o['chars'])
             d['files_over_64k'] += o['chars'] > 65536
@@ -644,6 +957,14 @@ def coq_term(case, obs):
                                              c_rows(obs['rows']), done)
         if obs.get('dump_end') != 'completed':
             return 'CRaised'
+        if not model_ok(case):
+            return 'CSkip'
+        if case['kind'] == 'chunk':
+            return 'CChunk %s %s %s %s %s %s %s' % (
+                c_head(case), c_names(case), c_tabs(case),
+                c_list(['(%s, %s)' % (c_rows(b), c_N(k)) for b, k in segments(case)]),
+                c_list([zs(ch) for ch in obs['chunks']]),
+                c_list(['(%s, %s)' % (c_rows(b), c_N(k)) for b, k in obs['rows']]), done)
         if case['kind'] == 'mem':
             return 'CMem %s %s %s %s %s %s %s' % (c_head(case), c_names(case), c_tabs(case), c_rows(case['rows']),
                                                   c_list([zs(l) for l in obs['lines']]), c_rows(obs['rows']), done)
@@ -660,10 +981,12 @@ def coq_term(case, obs):
 def coq_model_expr(case):
     if case['kind'] == 'parse':
         return 'c18_model (CParse %s %s %s [] true)' % (c_head(case), c_tabs(case), c_list([zs(l) for l in case['lines']]))
-    if case['kind'] == 'mem':
-        return 'c18_model (CMem %s %s %s %s [] [] true)' % (c_head(case), c_names(case), c_tabs(case), c_rows(case['rows'][:5]))
+    # the model on the first rows of the case that it evaluates quickly (scale cases: the rows below the size limit)
+    few = [r for r in all_rows(case)[:200] if len(ref_line(r, case['sep'], case['esc'])) <= MODEL_MAX_LINE][:5]
+    if case['kind'] in ('mem', 'chunk'):
+        return 'c18_model (CMem %s %s %s %s [] [] true)' % (c_head(case), c_names(case), c_tabs(case), c_rows(few))
     return 'c18_model (CFile %s %s %s %s [] [] [] true)' % (
-        c_head(case), c_names(case), c_tabs(case), c_list(['(%s, %s)' % (c_rows(case['rows'][:5]), c_N(1))]))
+        c_head(case), c_names(case), c_tabs(case), c_list(['(%s, %s)' % (c_rows(few), c_N(1))]))
 
 
 def neighbours(case, rng):
@@ -693,8 +1016,14 @@ CLAIM = {
             'The model is tied to csv.py by recomputing in Coq the lines csv.dump emitted, the file dump_to_file '
             'wrote, the chunk lengths file.read delivered and the rows (or the error point) csv.load / '
             'load_from_file returned, on exhaustive strings over {a, sep, quote, escape} up to length 6 in 1-3 '
-            'columns, random typed rows of 1-8 columns, real files up to 4 read chunks, and arbitrary malformed '
-            'lines. Multi-character separators: correspondence only.',
+            'columns, random typed rows of 1-8 columns, real files up to 4 read chunks, the dumped text of random rows '
+            'cut again into small random chunks, rows of 100-300 columns, and arbitrary malformed lines. '
+            'Multi-character separators: correspondence only. '
+            'Scale family, judged by the model-free round-trip oracle alone (the list-based model is quadratic in the '
+            'length of a line, so these cases carry the Coq term CSkip): rows with a str field of 130 KiB-1.2 MiB whose '
+            'line spans 3 and more 64 KiB read chunks and starts in the middle of a chunk, texts of several MiB, rows '
+            'of up to 3000 columns - through dump_to_file/load_from_file and through csv.dump -> re-chunked text -> '
+            'line.unframe -> csv.load.',
     'note': 'Trusted: Coq kernel+VM; hand-written model of csv.py/line.py/file.py (tied by correspondence only); '
             'Python str.split/join/replace and text-mode file reads are modelled, not verified. Number layer: '
             'str(), int(), float() are abstract functions in the theorems with the hypotheses int(str n) = n, '
